@@ -93,6 +93,20 @@ def build(ctx):
                                         meta={"big_loops": ["ref_walk_%s.%d" % (msg.name, x) for x in range(16)]},
                                         desc="message %s.%s level %s: cursor-based setter(s) %s (plain, init, dont_move, init_dont_move) write exactly the reference bytes where the random-access setter writes them; all other bytes unchanged; documented cursor position" % (sch.ns, msg.name, lv.name, [a[0] for a in chunk]),
                                         bounds={"N": N, "G": G, "D": D, "std": "c++" + std, "build": mode, "byte_order": "BE" if sch.be else "LE"}))
+    # header fills are part of "any in-order sequence of header fills, ...": the C17 obligations (exact identifying values incl. numGroups/numVarDataFields, frame elsewhere) on the header-layout schemas
+    import c17
+    for xml in (("vs_hdr_d.xml", "vs_hdr_b.xml") if ctx.quick else tuple("vs_hdr_%s.xml" % k_ for k_ in "abcde")):
+        sch, inc = hgen.gen_headers(ctx, xml)
+        for msg in sch.messages:
+            g = msggen.MG(sch, msg, G)
+            uh = ctx.lower("c17_%s_%s" % (sch.ns, msg.name), g.cpp_prelude() + c17.cpp(g), std="17", mode="checked", incs=[inc])
+            N = g.max_size(0, 1) + 1
+            for a in c17.arms(g, sch):
+                hs.append(P.Harness("%s_%s_hdrfill_%s_cxx17" % (sch.ns, msg.name, a[0]), c17.harness(uh, g, [a], N, 0, 1), [uh], unwind=G + 2,
+                                    cap=ctx.q(300, 900), backends=["minisat", "kissat"], extra_flags=["--no-standard-checks"],
+                                    meta={"big_loops": ["ref_walk_%s.%d" % (msg.name, x) for x in range(16)]},
+                                    desc="%s.%s: %s writes exactly the schema's identifying values (numGroups / numVarDataFields = member counts of that level) and nothing else" % (sch.ns, msg.name, a[0]),
+                                    bounds={"N": N, "G": G, "D": 1, "std": "c++17"}))
     # composition cross-check: one scripted in-order encode (header, fields, groups, entries, data) against the reference image
     for (xml, std, mode) in c02.plan(ctx)[:2 if ctx.quick else None]:
         if os.path.isabs(xml): continue
